@@ -113,6 +113,9 @@ def make_variant(v):
         d["projects"] = {"hamlet": "HAMLET", "macbeth": "MCB", "lear": "lear_prj"}
     if "insert_level" in chosen:
         b = rng.choice(d["basetypes"])
+        flat = [x for x in d["basetypes"] if not x["nodes"]]
+        if flat and rng.random() < 0.6:
+            b = rng.choice(flat)    # more often the basetype WITHOUT the optional node level: the shortest key list grows
         pos = rng.randrange(0, len(b["levels"]) + 1)
         if not (b["merged"] and pos <= max(b["merged"])):
             b["levels"].insert(pos, ["dept", "closed", ["d1", "d2", "d3"]])
@@ -177,6 +180,12 @@ def make_variant(v):
             for lv in b["levels"]:
                 if "_" not in lv[0] and rng2.random() < 0.4:
                     lv[0] = lv[0] + "_name"
+    # a derived shape worth its own mark (the variant selection covers every mark): the shortest key list is LONGER than the
+    # shallowest leaf type (a basetype without the optional node level got deeper than the file level of one that has it)
+    lens = [2 + len(b["levels"]) + 2 + (1 if b["nodes"] else 0) + 1 for b in d["basetypes"]]
+    leafs = [2 + len(b["levels"]) + 2 + 1 for b in d["basetypes"]]
+    if min(lens) > min(leafs):
+        chosen.append("shortest_key_list_deeper_than_shallowest_leaf")
     d["transformations"] = chosen
     if "leaf_per_base" in chosen:
         # "a leaf key per basetype": the last basetype names its leaf key differently from the others
